@@ -30,6 +30,7 @@ Definition init_statement (bits : Z) (K : nat) (rowok : nat -> Prop)
   length ph0 = (nm * n)%nat -> length sph0 = (nm * n)%nat -> length ipd0 = nm -> length ipi0 = (nm * n)%nat -> length sipi0 = (nm * n)%nat ->
   length om0 = (nm * (n * 2))%nat -> length iom0 = (nm * (n * 2))%nat ->
   exists ph sph ipd ipi sipi om iom, run fuel (Z.of_nat n) om0 iom0 ph0 sph0 ipd0 ipi0 sipi0 (Z.of_nat nm) = Some (ph, sph, ipd, ipi, sipi, om, iom) /\
+  (length ph = (nm * n)%nat /\ length sph = (nm * n)%nat /\ length ipd = nm /\ length ipi = (nm * n)%nat /\ length sipi = (nm * n)%nat /\ length om = (nm * (n * 2))%nat /\ length iom = (nm * (n * 2))%nat) /\
   forall c, (c < nm)%nat -> let p := nth c P 0 in let g := nth c roots 0 in let ik := nth c invk 0 in let sh := map (shoup bits p) in
     nth c ipd 0 = ninv p ik K k0 /\
     (forall i, (i < n)%nat -> nth (c * n + i) ph 0 = nth i (phis p g K k0) 0 /\ nth (c * n + i) sph 0 = nth i (sh (phis p g K k0)) 0 /\
@@ -68,8 +69,8 @@ Proof.
        Some ((H ++ flat (nth cm P 0) (S k0) w0) ++ skipn (2 ^ S k0 - 1) A0 ++ map (shoup bits (nth cm P 0)) (flat (nth cm P 0) (S k0) w0) ++ skipn (2 ^ S k0 - 1) B0, o1, o2)).
   { intros cm fu H A0 B0 w0 Hc Hf HA HB Hs Hw. apply Rprep; auto. lia. }
   destruct (init_all bits Hbits K castw Hcast mmc prepc k0 HkK HK nm P Pn roots invk A1 A2 A3 A4 A5 fuel Hfu ph0 sph0 ipd0 ipi0 sipi0 om0 iom0 L1 L2 L3 L4 L5 L6 L7 Hnm)
-    as (ph & sph & ipd & ipi & sipi & om & iom & E & Rows).
-  exists ph, sph, ipd, ipi, sipi, om, iom. split; [exact E|]. intros c Hc p g ik sh. exact (Rows c Hc).
+    as (ph & sph & ipd & ipi & sipi & om & iom & E & Lens & Rows).
+  exists ph, sph, ipd, ipi, sipi, om, iom. split; [exact E|]. split; [exact Lens|]. intros c Hc p g ik sh. exact (Rows c Hc).
 Qed.
 End Any.
 
